@@ -643,9 +643,9 @@ func (e *c12Env) one(opi int, op *c12Op, storeKind string) {
 	c.Probe("file_" + kind)
 
 	// ---- consume
-	var out []byte     // database produced (nil = consumer failed = corruption detected or operation refused)
-	var failure string // where it failed
-	reapOK := false    // reap itself returned nil
+	var out []byte       // database produced (nil = consumer failed = corruption detected or operation refused)
+	var failure string   // where it failed
+	reapOK := false      // reap itself returned nil
 	var startDump string // logical dump the consumer produced (node consumers)
 	var wantDump string  // ... and what it has to be
 	switch op.Cons {
